@@ -1,7 +1,7 @@
 """All contracts, by name."""
-from . import symbolic_nodes, negation, quantifiers, mappings, toplevel, cache, required
+from . import symbolic_nodes, negation, quantifiers, mappings, toplevel, cache, required, predicate_form
 
-MODULES = [symbolic_nodes, negation, quantifiers, mappings, toplevel, cache, required]
+MODULES = [symbolic_nodes, negation, quantifiers, mappings, toplevel, cache, required, predicate_form]
 
 
 def all_contracts():
